@@ -613,6 +613,16 @@ theorem lagrangianUB_perturbMany (P : Problem) (idx : List Nat) (δ : Rat) (y : 
     simp only [List.map_cons, List.sum_cons]
     grind
 
+theorem sum_range_const (n : Nat) (a : Rat) : ((List.range n).map fun _ => a).sum = (n : Rat) * a := by
+  induction n with
+  | zero => simp
+  | succ n ih =>
+    rw [List.range_succ, List.map_append, sum_app, ih]
+    have : ((n + 1 : Nat) : Rat) = (n : Rat) + 1 := by simp
+    rw [this]
+    simp only [List.map_cons, List.map_nil, List.sum_cons, List.sum_nil]
+    grind
+
 /-! ### rows of an SLP -/
 
 theorem sampleRows_length (mask : List Bool) (n : Nat) (rows : List Row) (i0 k : Nat) :
